@@ -346,6 +346,16 @@ def g_unexpected_token(ctx, F, body, site):
             return False, "UnexpectedToken is constructed in %s without a guaranteed token location" % fn.path
     if n == 0:
         return False, "no construction of UnexpectedToken found"
+    # new_parse_error turns *every* current token into a token location: nothing filters the token on the way
+    npe = F.fn("frontend::parser::Parser::<'a>::new_parse_error")
+    if npe is not None:
+        for b in [x for x in common.bodies_with_helpers(F, npe, depth=1) if x.file == npe.file]:
+            for bi, t in b.calls():
+                if is_callee(t, "frontend::parser::ParseError::<'a>::new") and len(t["args"]) > 1:
+                    names = common.deep_call_names(F, b, t["args"][1])
+                    bad = sorted(names & {"filter", "filter_map", "and_then", "take_if", "then", "then_some", "zip", "xor", "skip", "nth"})
+                    if bad:
+                        return False, "new_parse_error does not use every current token as the error's location (%s on the way): UnexpectedToken can be located by line only, and its message unwraps the token" % bad
     return True, ""
 
 
